@@ -18,18 +18,121 @@ SCHEMA = "sansldap.schema"
 CLASSES = ["ObjectClassDescription", "AttributeTypeDescription", "DITContentRuleDescription"]
 
 
+class NotLang:
+    """Complement of a Lang (same automaton, acceptance inverted)."""
+
+    def __init__(self, inner):
+        self.inner = inner
+        self.nfa = inner.nfa
+
+    def start(self):
+        return self.inner.start()
+
+    def step(self, st, c):
+        return self.inner.step(st, c)
+
+    def accepts(self, st) -> bool:
+        return not self.inner.accepts(st)
+
+    def dead(self, st) -> bool:
+        return False
+
+
+class AfterLang:
+    """Left quotient: the strings w such that prefix.w is in the language."""
+
+    def __init__(self, inner, prefix):
+        self.inner = inner
+        self.nfa = inner.nfa
+        self.prefix = list(prefix)
+
+    def start(self):
+        st = self.inner.start()
+        for c in self.prefix:
+            st = self.inner.step(st, c)
+        return st
+
+    def step(self, st, c):
+        return self.inner.step(st, c)
+
+    def accepts(self, st) -> bool:
+        return self.inner.accepts(st)
+
+    def dead(self, st) -> bool:
+        return self.inner.dead(st)
+
+
 def writer_escape(model: Model):
-    """The character class the writer escapes and its replacement format, from _encode_qdstring."""
+    """The character class the writer escapes and its replacement format, from _encode_qdstring.  Returns (site, class escaped in
+    every context, [(class, negated, look-ahead items)] for alternatives escaped only in some contexts)."""
+    import re._parser as P
+    import re._constants as RC
     from ..anchors import schema as schema_anchors
     enc = schema_anchors(model).encoder
     sites = [s for s in find_sites(model) if s.module == SCHEMA and s.api == "sub" and s.func == enc.qualname]
     if len(sites) != 1:
         raise AnalysisError(f"expected one re.sub in the qdstring encoder, found {len(sites)}")
     s = sites[0]
-    nfa = build(s.pattern, s.flags, "match")
-    if len(nfa.positions) != 1 or nfa.loops:
-        raise AnalysisError("the qdstring escape pattern is not a single character class")
-    return s, nfa.positions[0].cs
+    try:
+        tree = P.parse(s.pattern, s.flags)
+    except Exception as e:
+        raise AnalysisError(f"qdstring escape pattern does not parse: {e}")
+    items = list(tree)
+    while len(items) == 1 and items[0][0] is RC.SUBPATTERN and not items[0][1][1] and not items[0][1][2]:
+        items = list(items[0][1][3])
+    alts = [list(a) for a in items[0][1][1]] if len(items) == 1 and items[0][0] is RC.BRANCH else [items]
+    always = CharSet([])
+    cond = []
+    for alt in alts:
+        if not alt or alt[0][0] not in (RC.LITERAL, RC.NOT_LITERAL, RC.IN, RC.ANY):
+            raise AnalysisError("the qdstring escape pattern is not made of single character classes")
+        one = build(s.pattern, s.flags, "match", items_override=[alt[0]])
+        if len(one.positions) != 1 or one.loops:
+            raise AnalysisError("the qdstring escape pattern is not made of single character classes")
+        cs = one.positions[0].cs
+        rest = alt[1:]
+        if not rest:
+            always = always.union(cs)
+        elif len(rest) == 1 and rest[0][0] in (RC.ASSERT, RC.ASSERT_NOT) and rest[0][1][0] == 1:
+            cond.append((cs, rest[0][0] is RC.ASSERT_NOT, list(rest[0][1][1]), s))
+        else:
+            raise AnalysisError("the qdstring escape pattern is not made of single character classes (with an optional look-ahead)")
+    return s, always, cond
+
+
+def conditional_escapes(model: Model, run: Run, wsite, always, cond, reader_site) -> None:
+    """H18: a character that must not appear bare (the quote, the backslash) may be left bare in some contexts only if, in
+    those contexts, the reader cannot take it for anything else: the quote never; the backslash only where what follows cannot
+    complete one of the reader's escapes.  `ESC(?!27|5[Cc])` leaves the backslash bare exactly in front of 27 / 5c - the one
+    place where the reader turns it into another character."""
+    must = CharSet([(0x27, 0x27), (0x5C, 0x5C)])
+    for cs, neg, items, s in cond:
+        for lo, hi in cs.intersect(must).iv:
+            for c in range(lo, hi + 1):
+                if c in always:
+                    continue
+                ahead = Lang(build(s.pattern, s.flags, "match", items_override=items))          # L(A).Sigma*
+                bare = ahead if neg else NotLang(ahead)
+                if c == 0x27:
+                    w = difference_witness(bare, NotLang(Lang(build(".*" if isinstance(s.pattern, str) else b".*", 16, "match"))))
+                    why = "a bare quote ends the quoted string"
+                else:
+                    if reader_site is None:
+                        raise AnalysisError("conditional escape of the backslash, but the reader does not decode with one substitution: not decided")
+                    reacts = AfterLang(Lang(build(reader_site.pattern, reader_site.flags, "match")), [c])
+                    w = difference_witness(bare, NotLang(reacts))
+                    why = "the reader decodes that as an escape"
+                shown = "".join(chr(x) if 0x20 <= x < 0x7F else f"\\x{x:02x}" for x in (w or []))
+                may_escape = always
+                for cs2, _n, _i, _s in cond:
+                    may_escape = may_escape.union(cs2)
+                if w is not None and any(x in may_escape for x in w):
+                    raise AnalysisError(f"conditional escape of {chr(c)!r}: the context {shown!r} is itself rewritten by the escaper: not decided")
+                run.ob("H18-bare-special-characters-are-not-read-as-escapes", w is None, {"char": chr(c), "left_bare_in_front_of": shown if w is not None else None})
+                if w is not None:
+                    run.fail(Finding("H18-bare-special-characters-are-not-read-as-escapes", wsite.func, f"char={chr(c)!r} context={shown!r}",
+                                     f"the writer leaves {chr(c)!r} unescaped when it is followed by {shown!r}, and {why}: the text comes back as a different string",
+                                     model.loc(SCHEMA, wsite.node)))
 
 
 def callback_format(model: Model, fi: FuncInfo, cb: ast.expr) -> Optional[Tuple[str, str]]:
@@ -164,7 +267,7 @@ def check(model: Model, run: Run) -> None:
                        "field is written by __str__ and assigned in from_string. Equality of the whole definition after the round trip (post-regex extraction) is NOT decided")
     folder = Folder(model)
     # ---- (1) escape agreement -----------------------------------------------------------
-    wsite, wclass = writer_escape(model)
+    wsite, wclass, wcond = writer_escape(model)
     wfi = model.functions[wsite.func]
     fmt = callback_format(model, wfi, wsite.callback)
     ok = fmt is not None and fmt[0] == "\\" and fmt[1] in ("02x", "02X")
@@ -178,6 +281,10 @@ def check(model: Model, run: Run) -> None:
     reader_lang = None
     if len(rsites) == 1:
         reader_lang = Lang(build(rsites[0].pattern, rsites[0].flags, "fullmatch"))
+    conditional_escapes(model, run, wsite, wclass, wcond, rsites[0] if len(rsites) == 1 else None)
+    for cs_, _neg, _items, _s in wcond:
+        # for the rules below a conditionally escaped character is both: possibly escaped (H2) and - where H18 allows it - bare
+        wclass = wclass.union(cs_)
     dstring = Lang(build(rfc.DSTRING, 0, "fullmatch"))
     raw_ok = CharSet([(0x27, 0x27), (0x5C, 0x5C)]).complement(0x10FFFF)      # RFC: any code point except ' and \
     n_chars = 0
@@ -244,6 +351,8 @@ def check(model: Model, run: Run) -> None:
     from .c19 import parse_results_fresh
     parse_results_fresh(model, run, "sansldap.schema", "H7-parse-results-are-fresh", "from_string(str(x)) == x")
 
+    from .c17 import extension_names_kept_as_written
+    extension_names_kept_as_written(model, run, "H17-extension-names-kept-as-written")
     from .c17 import hooks_store_fields_as_given
     hooks_store_fields_as_given(model, run, [f"{SCHEMA}.{c}" for c in CLASSES], "H12-fields-held-as-given",
                                 "a definition built from parsed text is changed again on construction, so text -> object -> text -> object is not the identity the round trip needs")
